@@ -11,6 +11,9 @@
    the property (never consults the model); it decides what is a violation;
 4. client-side sample: 1-3 real client processes on one real tracker through the public
    register / maybe_unlink / unregister API, normal exits and SIGKILL (sampled, reported as such);
+4a. signals (Model/TrackerStartup.v): SIGINT/SIGTERM to the tracker's pid / group as events of the loop
+   histories (before a line; pending when main() starts, the tracker being spawned with both blocked as
+   ensure_running() does) and on the real spawn path (spawnv_passfds wrapped from outside);
 4b. TemporaryResourcesManager (Model/TempManager.v): the real manager + real tracker + real directory
    driven event by event (register_new_context, file life-cycle, _clean_temporary_resources with
    instrumented register/unregister/maybe_unlink/delete_folder, tracker optionally frozen), then the
@@ -241,7 +244,15 @@ def gen_case(rng, werror=False):
         line, pre, kind = gen_line(rng, shadow)
         if line.strip(" \t\r\x0b\x0c") and "\n" not in line:
             steps.append({"pre": [pre] if pre else [], "line": line, "nl": False, "kind": kind})
-    return {"steps": steps, "werror": werror}
+    case = {"steps": steps, "werror": werror}
+    # signals to the tracker: while it runs (before a line) and pending at its start
+    if rng.random() < 0.35:
+        for st in steps:
+            if st["nl"] and rng.random() < 0.12:
+                st["sig"] = [rng.choice(["INT", "TERM"]), rng.choice(["pid", "group"])]
+    if rng.random() < 0.2:
+        case["pending"] = [[n, rng.choice(["pid", "group"])] for n in rng.sample(["INT", "TERM"], rng.choice([1, 1, 2]))]
+    return case
 
 
 # ------------------------------------------------------------------------- model
@@ -362,8 +373,16 @@ def run_impl_cases(ctx, cases, script="c20_impl.py", workers=12, timeout=1500):
 
 
 def strip_case(c):
-    return {"steps": [{"pre": s.get("pre", []), "line": s["line"], "nl": s.get("nl", True)} for s in c["steps"]],
-            "werror": bool(c.get("werror"))}
+    steps = []
+    for s in c["steps"]:
+        d = {"pre": s.get("pre", []), "line": s["line"], "nl": s.get("nl", True)}
+        if s.get("sig"):
+            d["sig"] = s["sig"]
+        steps.append(d)
+    out = {"steps": steps, "werror": bool(c.get("werror"))}
+    if c.get("pending"):
+        out["pending"] = c["pending"]
+    return out
 
 
 def search_failing(ctx, n=150):
@@ -385,7 +404,7 @@ def shrink(ctx, case, bad):
         n = len(cur["steps"])
         cands = []
         for i in range(n):
-            c = {"steps": cur["steps"][:i] + cur["steps"][i + 1:], "werror": cur["werror"]}
+            c = dict(cur, steps=cur["steps"][:i] + cur["steps"][i + 1:])
             if c["steps"] and not all(s["nl"] for s in c["steps"][:-1]):
                 continue
             cands.append(c)
@@ -711,6 +730,43 @@ def run_manager_stage(ctx, quick):
     return stats, scs[0]
 
 
+# ------------------------------------------- signals on the real spawn path
+def judge_signal(sc, r):
+    """(violation | None, inconclusive | None)"""
+    if "harness_error" in r:
+        return None, "harness error " + r["harness_error"]
+    if [f for f in r.get("flags", []) if f != "no-client-log"] or "tracker" not in r:
+        return None, "flags %s" % r.get("flags")
+    what = "SIG%s sent to the tracker's %s %s" % (sc["sig"], sc["target"],
+                                                  "while it was starting (pending at main())" if sc["when"] == "pending"
+                                                  else "while it was serving requests")
+    if r["left"]:
+        return "%s: after the client was killed and the tracker process ended, left on disk: %s (client: %s)" % (
+            what, r["left"], r.get("client_error")), None
+    if r.get("sync1") is False or r.get("sync2") is False or r.get("client_error"):
+        return "%s: the tracker stopped answering (%s)" % (what, r.get("client_error")), None
+    return None, None
+
+
+def run_signal_stage(ctx):
+    scs = [{"sig": s, "target": t, "when": w} for w in ("pending", "running") for s in ("TERM", "INT") for t in ("pid", "group")]
+    res = run_impl_cases(ctx, scs, script="c20_signals.py", workers=8)
+    inconclusive = 0
+    masks = set()
+    for sc, r in zip(scs, res):
+        bad, inc = judge_signal(sc, r)
+        if inc:
+            r = run_impl_cases(ctx, [sc], script="c20_signals.py", workers=1)[0]
+            bad, inc = judge_signal(sc, r)
+        if inc:
+            inconclusive += 1
+            ctx.note("signal scenario inconclusive (%s): %s" % (inc, json.dumps(sc)))
+        elif bad:
+            ctx.violation(bad, {"kind": "signal", "scenario": sc}, True)
+        masks.add(tuple(r.get("mask_at_spawn") or ()))
+    return {"scenarios": len(scs), "inconclusive": inconclusive, "mask_at_spawn_seen": sorted(masks)}
+
+
 # ------------------------------------------------ Parallel + numpy life-cycle sample
 KEY_WERROR_E2E = "eof-cleanup-aborted:-W-error:parallel-memmap-folder-left-after-kill"
 
@@ -875,6 +931,9 @@ def run(ctx):
     # TemporaryResourcesManager, event by event, then kill / exit
     mg_stats, mg_sample = run_manager_stage(ctx, quick)
 
+    # SIGINT / SIGTERM to the tracker spawned by the real ensure_running()
+    sg_stats = run_signal_stage(ctx)
+
     # Parallel + numpy life-cycle (sampled; python3-vt)
     modes = ["normal", "kill", "kill", "kill-werror"] if quick else ["normal"] * 3 + ["kill"] * 6 + ["kill-werror"]
     with cf.ThreadPoolExecutor(min(6, len(modes))) as ex:
@@ -932,6 +991,9 @@ def run(ctx):
         "client_inconclusive": cl_inconclusive,
         "client_side_is_sampled": True,
         "manager_stage": mg_stats,
+        "signal_stage": sg_stats,
+        "loop_cases_with_signals": sum(1 for c in cases if any(st.get("sig") for st in c["steps"])),
+        "loop_cases_started_with_pending_signal": sum(1 for c in cases if c.get("pending")),
         "parallel_numpy_runs": modes,
         "parallel_numpy_ok": np_ok,
         "parallel_numpy_inconclusive": np_inconclusive,
@@ -950,6 +1012,12 @@ def run(ctx):
 def replay(ctx, path):
     obj = json.load(open(path))
     rep = obj.get("replay", obj)
+    if rep.get("kind") == "signal":
+        sc = rep["scenario"]
+        r = run_impl_cases(ctx, [sc], script="c20_signals.py", workers=1)[0]
+        bad, inc = judge_signal(sc, r)
+        print("replay (signal):", json.dumps(sc), "=>", bad or inc or "property holds")
+        return 1 if bad else 0
     if rep.get("kind") == "manager":
         sc = rep["scenario"]
         r = run_impl_cases(ctx, [sc], script="c20_manager.py", workers=1)[0]
